@@ -210,12 +210,24 @@ pub struct Want {
     pub neg: bool,
     pub part: bool,
     pub tok: bool,
+    /// record the visits of the rule checker's branch phase (hook)
+    pub rules: bool,
 }
 
 pub fn observe_glob(id: u64, e: &str, sigma: &[u32], want: &Want, max_states: usize) -> Value {
     let mut rec = json!({"id": id, "kind": "glob", "e": cps(e), "elen": e.len(),
         "outcome": "ok", "ekind": "", "panic": "", "espans": [], "qpanic": ""});
+    if want.rules {
+        wax::verif::install_rule_sink();
+    }
     let built = guarded(|| Glob::new(e));
+    if want.rules {
+        let span = |s: Option<(usize, usize)>| s.map_or(json!([-1, -1]), |(a, n)| json!([a, n]));
+        rec["rtrace"] = wax::verif::take_rule_visits()
+            .iter()
+            .map(|v| json!({"k": v.kind.to_string(), "s": [v.span.0, v.span.1], "l": span(v.left), "r": span(v.right)}))
+            .collect();
+    }
     let glob = match built {
         Err(site) => {
             rec["outcome"] = json!("panic");
@@ -438,7 +450,7 @@ pub fn parse_sigma(arg: &str) -> Vec<u32> {
 
 pub fn run(args: &[String]) {
     let mut sigma: Vec<u32> = vec![97, 98, 47];
-    let mut want = Want { only_exhaustive: false, dfa: false, walk: false, neg: false, part: false, tok: false };
+    let mut want = Want { only_exhaustive: false, dfa: false, walk: false, neg: false, part: false, tok: false, rules: false };
     let mut max_states = crate::dfa::MAX_STATES;
     let mut threads = 8usize;
     let mut i = 0;
@@ -457,6 +469,7 @@ pub fn run(args: &[String]) {
                         "neg" => want.neg = true,
                         "part" => want.part = true,
                         "tok" => want.tok = true,
+                        "rules" => want.rules = true,
                         "" => {},
                         _ => panic!("unknown --want {}", w),
                     }
